@@ -146,7 +146,7 @@ def run(chk):
         # the solver's tolerances are absolute (atol=1e-5): homogeneity of the RESULT holds to integrator accuracy only, so
         # both members of a pair are integrated with the tolerance tightened from outside (the equations are unchanged)
         old_ode = emf.ode
-        emf.ode = U.make_recording_ode([], atol=1e-9, rtol=1e-9)
+        emf.ode = U.make_recording_ode([], atol=1e-9, rtol=1e-9, nsteps=500000)
         try:
             with warnings.catch_warnings():
                 warnings.simplefilter("ignore")
